@@ -25,6 +25,7 @@ import (
 	"github.com/google/uuid"
 
 	"github.com/Tnze/go-mc/chat"
+	"github.com/Tnze/go-mc/level"
 	"github.com/Tnze/go-mc/nbt"
 	pk "github.com/Tnze/go-mc/net/packet"
 	"github.com/Tnze/go-mc/net/queue"
@@ -127,6 +128,9 @@ type Scenario struct {
 	// from what the threads observed. obs collects observations for outcome counting.
 	Body    func(x *Exec)
 	Horizon int
+	// QuickBound / ThoroughBound cap the deviation bound for scenarios with very many scheduling
+	// points (0 = the tier's default bound).
+	QuickBound, ThoroughBound int
 }
 
 // Exec is per-execution scratch shared by the scenario's threads.
@@ -167,7 +171,7 @@ func (r *recQueue) Push(t, v int) bool {
 			r.modelLen++
 		}
 		if !ok && r.modelLen < r.modelCap {
-			r.x.fail("bounded queue refused a push although it holds %d of %d items", r.modelLen, r.modelCap)
+			r.x.fail("bounded queue refused a push although not full: holds %d of %d items", r.modelLen, r.modelCap)
 		}
 	}
 	r.x.H.end(Event{Thread: t, Op: "push", Arg: v, OK: ok, Call: c})
@@ -336,6 +340,11 @@ func exactScenario(name string, mk func() (queue.Queue[int], bool, int), nProd, 
 	}}
 }
 
+func withBounds(s Scenario, quick, thorough int) Scenario {
+	s.QuickBound, s.ThoroughBound = quick, thorough
+	return s
+}
+
 func linked() (queue.Queue[int], bool, int) { return queue.NewLinkedQueue[int](), false, 0 }
 func chanQ(n int) func() (queue.Queue[int], bool, int) {
 	return func() (queue.Queue[int], bool, int) { return queue.NewChannelQueue[int](n), true, n }
@@ -363,19 +372,19 @@ func poolScenario(threads int, compress bool) Scenario {
 					var wire bytes.Buffer
 					p := pk.Packet{ID: int32(t), Data: payload}
 					if err := p.Pack(&wire, threshold); err != nil {
-						x.fail("Pack: %v", err)
+						x.fail("Pack failed: %v", err)
 						return
 					}
 					frame := append([]byte(nil), wire.Bytes()...)
 					sched.Point("after-pack") // a peer may now reuse whatever Pack returned to the pools
 					var got pk.Packet
 					if err := got.UnPack(bytes.NewReader(frame), threshold); err != nil {
-						x.fail("thread %d: UnPack of own frame: %v", t, err)
+						x.fail("UnPack of own frame failed: thread %d: %v", t, err)
 						return
 					}
 					sched.Point("after-unpack") // a peer may now overwrite a buffer that UnPack retained
 					if got.ID != int32(t) || !bytes.Equal(got.Data, payload) {
-						x.fail("thread %d sent id=%d %x but decoded id=%d %x (foreign bytes)", t, t, payload, got.ID, got.Data)
+						x.fail("decoded packet differs from the one sent (foreign bytes): thread %d sent id=%d %x but decoded id=%d %x", t, t, payload, got.ID, got.Data)
 						return
 					}
 				}
@@ -404,12 +413,58 @@ func nbtCacheScenario(threads int) Scenario {
 				if t%2 == 1 {
 					got, err := nbt.Marshal(cacheProbe{A: 7, B: "x", C: []int8{1, 2}})
 					if err != nil || !bytes.Equal(got, want) {
-						x.fail("thread %d: Marshal gave %x (err %v), sequential run gives %x", t, got, err, want)
+						x.fail("concurrent Marshal differs from the sequential run: thread %d gave %x (err %v), sequential %x", t, got, err, want)
 					}
 				} else {
 					var v cacheProbe
 					if err := nbt.Unmarshal(want, &v); err != nil || v.A != 7 || v.B != "x" || len(v.C) != 2 {
-						x.fail("thread %d: Unmarshal gave %+v (err %v)", t, v, err)
+						x.fail("concurrent Unmarshal differs from the sequential run: thread %d gave %+v (err %v)", t, v, err)
+					}
+				}
+			}))
+		}
+		for _, h := range hs {
+			h.Join()
+		}
+	}}
+}
+
+// S7: independent chunk encoders. Two or three threads each write their own chunk to their own
+// writer (a scheduling point at every Write, as on a socket) and read it back; whatever scratch
+// state level.Chunk.WriteTo shares between calls (pools, package-level buffers) must not let one
+// chunk's bytes appear in another's.
+type schedWriter struct{ buf bytes.Buffer }
+
+func (w *schedWriter) Write(p []byte) (int, error) {
+	sched.Point("chunk.w.Write")
+	return w.buf.Write(p)
+}
+
+func chunkScenario(threads int) Scenario {
+	return Scenario{Name: fmt.Sprintf("chunk-writeto/threads=%d", threads), Horizon: 20000, QuickBound: 1, ThoroughBound: 2, Body: func(x *Exec) {
+		var hs []sched.Handle
+		for t := 1; t <= threads; t++ {
+			t := t
+			hs = append(hs, sched.GoJoinable(fmt.Sprintf("chunk%d", t), func() {
+				c := level.EmptyChunk(1)
+				for i := 0; i < 40*t; i++ {
+					c.Sections[0].SetBlock(i*7%4096, level.BlocksState(1+t*3+i%5))
+				}
+				w := &schedWriter{}
+				if _, err := c.WriteTo(w); err != nil {
+					x.fail("Chunk.WriteTo failed: %v", err)
+					return
+				}
+				sched.Point("after-chunk-writeto")
+				back := level.EmptyChunk(1)
+				if _, err := back.ReadFrom(bytes.NewReader(w.buf.Bytes())); err != nil {
+					x.fail("chunk written concurrently cannot be read back: thread %d: %v", t, err)
+					return
+				}
+				for i := 0; i < 4096; i++ {
+					if g, want := back.Sections[0].GetBlock(i), c.Sections[0].GetBlock(i); g != want {
+						x.fail("chunk written concurrently differs (foreign bytes): thread %d block %d reads %d, written %d", t, i, g, want)
+						return
 					}
 				}
 			}))
@@ -441,7 +496,7 @@ func playerListScenario(capacity int) Scenario {
 				}
 				pl.ClientJoin(cl, server.PlayerSample{Name: fmt.Sprint("p", cl.id)})
 				if n := pl.Len(); n > capacity {
-					x.fail("player list holds %d players, capacity is %d", n, capacity)
+					x.fail("player list over capacity: holds %d players, capacity is %d", n, capacity)
 				}
 				if !cl.gone {
 					pl.ClientLeft(cl)
@@ -451,10 +506,10 @@ func playerListScenario(capacity int) Scenario {
 		hs = append(hs, sched.GoJoinable("sampler", func() {
 			for i := 0; i < 2; i++ {
 				if n := pl.Len(); n > capacity {
-					x.fail("player list holds %d players, capacity is %d", n, capacity)
+					x.fail("player list over capacity: holds %d players, capacity is %d", n, capacity)
 				}
 				if n := len(pl.PlayerSamples()); n > capacity {
-					x.fail("PlayerSamples returned %d players, capacity is %d", n, capacity)
+					x.fail("PlayerSamples over capacity: returned %d players, capacity is %d", n, capacity)
 				}
 			}
 		}))
@@ -474,20 +529,21 @@ func scenarios(thorough bool) []Scenario {
 	s := []Scenario{
 		queueScenario("linked/2prod x2/1cons", linked, 2, 2, 1, false),
 		queueScenario("linked/1prod x3/2cons", linked, 1, 3, 2, false),
-		queueScenario("linked/2prod x1/2cons/consumers-first", linked, 2, 1, 2, true),
+		withBounds(queueScenario("linked/2prod x1/2cons/consumers-first", linked, 2, 1, 2, true), 2, 3),
 		queueScenario("linked/1prod x1/2cons/consumers-first", linked, 1, 1, 2, true),
 		queueScenario("linked/0prod/2cons/close-races-blocked-consumers", linked, 0, 0, 2, true),
 		exactScenario("linked/exact/1prod x2/1cons/consumer-first", linked, 1, 2, 1, true),
 		exactScenario("linked/exact/2prod x1/2cons/consumers-first", linked, 2, 1, 2, true),
 		exactScenario("linked/exact/1prod x2/2cons/consumers-first", linked, 1, 2, 2, true),
 		queueScenario("chan1/2prod x2/1cons", chanQ(1), 2, 2, 1, false),
-		queueScenario("chan2/2prod x2/2cons", chanQ(2), 2, 2, 2, false),
+		withBounds(queueScenario("chan2/2prod x2/2cons", chanQ(2), 2, 2, 2, false), 2, 3),
 		queueScenario("chan1/1prod x3/1cons/consumers-first", chanQ(1), 1, 3, 1, true),
 		poolScenario(2, false),
 		poolScenario(2, true),
 		nbtCacheScenario(2),
 		playerListScenario(1),
 		playerListScenario(2),
+		chunkScenario(2),
 	}
 	if thorough {
 		s = append(s,
@@ -521,7 +577,14 @@ func explore(bound int, perScenario time.Duration, shardIdx, shardCnt int) []scS
 		sc := sc
 		st := scStat{Scenario: sc.Name, Bound: -1}
 		deadline := time.Now().Add(perScenario)
-		for b := 0; b <= bound; b++ {
+		scBound := bound
+		if lim := sc.QuickBound; !rep.Thorough() && lim > 0 && lim < scBound {
+			scBound = lim
+		}
+		if lim := sc.ThoroughBound; rep.Thorough() && lim > 0 && lim < scBound {
+			scBound = lim
+		}
+		for b := 0; b <= scBound; b++ {
 			outcomes := map[string]bool{}
 			maxThreads := 0
 			es := engine.Explore(engine.ExploreOpts{Bound: b, Workers: 1, Deadline: deadline,
@@ -555,7 +618,7 @@ func explore(bound int, perScenario time.Duration, shardIdx, shardCnt int) []scS
 			for o := range outcomes {
 				st.OutcomeList = append(st.OutcomeList, o)
 			}
-			if b == bound {
+			if b == scBound {
 				rep.NonTrivial(es.Executions)
 				rep.AddStates(es.Executions)
 			}
@@ -624,6 +687,9 @@ func runOne(sc Scenario, c *engine.Chooser) (class, detail, obs string, x *Exec,
 
 // failKind strips numbers from an oracle message to get a stable class fragment.
 func failKind(s string) string {
+	if i := strings.Index(s, ": "); i > 0 && i < 50 {
+		s = s[:i] // messages of the form "<stable kind>: <details>"
+	}
 	k := engine.PanicKind(s)
 	if len(k) > 60 {
 		k = k[:60]
